@@ -95,7 +95,10 @@ def st_case(draw, tier):
     solver = "general"
     if spec["family"] in ("bag", "template") and draw(st.integers(0, 3)) == 0:
         solver = "template"
-    return {"kind": "matching", "eos": spec, "tol": tol, "solver": solver, "vclass": vclass, "u": u}
+    case = {"kind": "matching", "eos": spec, "tol": tol, "solver": solver, "vclass": vclass, "u": u}
+    if draw(st.integers(0, 3)) == 0:
+        case["decoy"] = {"alN": round(10.0 ** draw(st.floats(-2.0, -0.5)), 4), "psiN": round(draw(st.floats(0.6, 0.95)), 3)}
+    return case
 
 
 def strategy(tier):
@@ -223,6 +226,18 @@ def _check_case(case) -> Verdict:
     vw = velocity(case["vclass"], case["u"], vmin, cb, vJ)
     v.info.update(vw=vw, vMin=vmin, cb=cb, vJ=vJ, alN=meta["alN"], psiN=meta["psiN"])
     base_cls = f"{solver}/{fam}"
+
+    # ---- another object for another EOS, same Tn and vw, used first (as in a parameter scan) --------
+    if case.get("decoy") and solver == "general":
+        v.label("decoy-object-first")
+        try:
+            th2, _ = Z.build({"family": "template", "Tn": Tn, "alN": float(case["decoy"]["alN"]),
+                              "psiN": float(case["decoy"]["psiN"]), "cs2": 0.26, "cb2": 0.23, "g": 1.0})
+            h2 = Z.build_hydro(th2, rtol, atol)
+            h2.findMatching(vw)
+            h2.findHydroBoundaries(vw)
+        except Exception:  # noqa: BLE001  (the decoy's own outcome is irrelevant)
+            pass
 
     # ---- the matching ------------------------------------------------------------------------
     try:
